@@ -4,6 +4,7 @@ import (
 	"archive/tar"
 	"bytes"
 	"context"
+	"errors"
 	"fmt"
 	"io"
 	"os"
@@ -95,6 +96,23 @@ func c17Keyword(k string) string {
 		}
 	}
 	return b.String()
+}
+
+// c17LimitWriter accepts the first `left` bytes and fails from then on.
+type c17LimitWriter struct {
+	left    int
+	refused bool
+}
+
+func (w *c17LimitWriter) Write(p []byte) (int, error) {
+	if len(p) <= w.left {
+		w.left -= len(p)
+		return len(p), nil
+	}
+	n := w.left
+	w.left = 0
+	w.refused = true
+	return n, errors.New("destination full")
 }
 
 func c17GenTree(R *core.Rand) *tree.Tree {
@@ -375,7 +393,7 @@ func init() {
 		ID:    "C17",
 		Level: "exploration",
 		Rule: "random trees as in C01 (adversarial names incl. non-ASCII, empty files, sizes around the 32KiB chunk, ~1MiB files, hard-link groups of files, fifos and char devices, symlinks, fifos, char/block devices, setuid/setgid/sticky, three owners, ns/negative/far-future mtimes, user.* xattrs with empty and binary values on files and directories (names holding '=' and '%', and in half of those also ':', '$', '+', '@', ',', '?', '&', ';', '#', '!', a blank or non-ASCII bytes, in 1 tree of 40, compared after undoing GNU tar's keyword encoding of '=' and '%' only), trusted.* on symlinks) plus 0-2 entries renamed to 101-255 byte (partly non-ASCII) names x filter {none, include, exclude, include+exclude; 0-2 patterns each from the C10 grammar, single level fsutil.NewFilterFS} x source {fsutil.NewFS on disk, synthetic in-memory FS, fsutil.SubDirFS over NewFS (half of them with a second sub-root 'su' next to 'sub'), diagnostic: filter stacked on a keep-all map filter}. " +
-			"fsutil.WriteTar writes into a buffer. The view is predicted from an independent snapshot (or the model) + the naive reference filter and compared with a real second Walk; the archive is read with archive/tar (well-formed to EOF, two zero blocks, member sequence == view, per member: name with directory slash, type flag, link name, size, payload bytes, mode incl. special bits, uid/gid, mtime = view exactly, floored or rounded to the second, device numbers, SCHILY.xattr.* records) and extracted as root with GNU tar (--xattrs --xattrs-include=* --same-owner --numeric-owner -p) into an empty directory whose snapshot is compared with the view (type, bytes, link groups, targets, device numbers, mode, owner, xattrs, mtime incl. directories to the second). " +
+			"fsutil.WriteTar writes into a buffer (and, in 1 case of 8, once more into a destination that fails 1..1536 bytes before the end, or anywhere: a nil return for an archive the destination did not take whole is a violation). The view is predicted from an independent snapshot (or the model) + the naive reference filter and compared with a real second Walk; the archive is read with archive/tar (well-formed to EOF, two zero blocks, member sequence == view, per member: name with directory slash, type flag, link name, size, payload bytes, mode incl. special bits, uid/gid, mtime = view exactly, floored or rounded to the second, device numbers, SCHILY.xattr.* records) and extracted as root with GNU tar (--xattrs --xattrs-include=* --same-owner --numeric-owner -p) into an empty directory whose snapshot is compared with the view (type, bytes, link groups, targets, device numbers, mode, owner, xattrs, mtime incl. directories to the second). " +
 			"non-trivial = the archive has at least one member and the case has a link group, a special file, a multi-chunk or empty file, a name > 100 bytes, or a filter that selects a proper non-empty subset; distinct by (tree, filter, source) fingerprint",
 		Assumptions: []string{
 			"runs as root on a file system with mknod, user.* and trusted.* xattrs; GNU tar >= 1.30 in PATH",
@@ -612,6 +630,22 @@ func c17Run(c *core.Ctx) *core.Result {
 		return r
 	}
 	r.Count("members", int64(len(members)))
+	// a destination that stops accepting bytes somewhere in the tail of the
+	// archive (last payload, its padding, the end-of-archive blocks): what was
+	// written is no well-formed archive, and a nil return would vouch for it
+	if fr := core.NewRand(core.Mix(c.Seed, "C17-failing-destination", c.Index)); fr.P(1, 8) && buf.Len() > 0 {
+		cut := buf.Len() - core.Pick(fr, []int{1, 511, 512, 513, 1024, 1025, 1536, 1 + fr.Intn(buf.Len())})
+		if cut < 0 {
+			cut = 0
+		}
+		lw := &c17LimitWriter{left: cut}
+		err := fsutil.WriteTar(context.Background(), fs, lw)
+		r.Count("exports_into_a_destination_that_fails_in_the_tail", 1)
+		if err == nil && lw.refused {
+			r.ViolateD("tar-nil-for-truncated-archive", sample, "WriteTar returned nil although the destination refused everything after %d of the archive's %d bytes", cut, buf.Len())
+			return r
+		}
+	}
 
 	// evidence: what this case exercises
 	feat := map[string]bool{}
